@@ -5,10 +5,16 @@ V = os.path.dirname(os.path.dirname(os.path.abspath(__file__)))
 res = json.load(open(os.path.join(V, "seeded", "RESULTS.json")))
 print("| change | needs, in order to manifest | check exit | obligations that fail (first three) | concrete input replayed |")
 print("|---|---|---|---|---|")
+def need(meta):
+    t = " ".join(meta.get("needs_to_manifest", "").replace("|", "/").split())
+    t = t.replace("## Change", "—").replace("## What the mutant changes", "—").lstrip("# ")
+    return t if len(t) <= 230 else t[:227] + "…"
+
+
 for sid in sorted(res):
     meta = json.load(open(os.path.join(V, "seeded", sid, "meta.json")))
     r = res[sid]
     v = r["violations"]
     short = [x.split(".", 1)[1] for x in v[:3]]
     rep = "yes" if len(r["no_failing_input"]) < len(v) else ("no (no-failing-input-found)" if v else "—")
-    print("| %s | %s | %d | %s%s | %s |" % (sid, meta.get("needs_to_manifest", ""), r["exit"], ", ".join("`%s`" % s for s in short), " …" if len(v) > 3 else "", rep))
+    print("| %s | %s | %d | %s%s | %s |" % (sid, need(meta), r["exit"], ", ".join("`%s`" % s for s in short), " …" if len(v) > 3 else "", rep))
